@@ -57,7 +57,19 @@ func runC12(c *Ctx, idx int) {
 		}
 		s := genNet(r, o)
 		in := randInputs(r, s.NIn, 2)
-		c12Net(c, s, in, r.Intn(2) == 0)
+		viaGenesis := r.Intn(2) == 0
+		if !viaGenesis && r.Intn(3) == 0 {
+			// a network assembled by hand: the outputs list and the node list each in an order of their own
+			if s.NOut > 1 {
+				s.OutOrder = r.Perm(s.NOut)
+				c.Count("nets.outputs_list_in_own_order", 1)
+			}
+			if r.Intn(2) == 0 {
+				s.NodeOrder = r.Perm(s.total())
+				c.Count("nets.node_list_shuffled", 1)
+			}
+		}
+		c12Net(c, s, in, viaGenesis)
 	}
 }
 
@@ -122,6 +134,12 @@ func c12Net(c *Ctx, s *netSpec, in []float64, viaGenesis bool) {
 	}
 	// (b) standard network, recursive steps
 	net = build()
+	if L >= 2 && c.G.Intn(3) == 0 {
+		// the way evaluators bound the work: a depth query with a cap, which is hit here; the network is used afterwards
+		if _, derr := net.MaxActivationDepthWithCap(1 + c.G.Intn(L-1)); derr != nil {
+			c.Count("solver.capped_depth_query_hit_the_cap_before_recursive", 1)
+		}
+	}
 	_ = net.LoadSensors(in)
 	_, err = net.RecursiveSteps()
 	if !check("std_recursive", net.ReadOutputs(), err) {
@@ -180,9 +198,10 @@ func c12Net(c *Ctx, s *netSpec, in []float64, viaGenesis bool) {
 		near = near || math.IsNaN(w) || math.IsInf(w, 0)
 	}
 	if !near {
+		in1 := in
 		want, in = want2, in2
 		net = build()
-		_ = net.LoadSensors(in)
+		_ = net.LoadSensors(in1)
 		_, _ = net.ForwardSteps(steps)
 		net2 := net
 		_ = net2.LoadSensors(in2)
@@ -191,7 +210,7 @@ func c12Net(c *Ctx, s *netSpec, in []float64, viaGenesis bool) {
 			return
 		}
 		fast, _ = build().FastNetworkSolver()
-		_ = fast.LoadSensors(in)
+		_ = fast.LoadSensors(in1)
 		_, _ = fast.ForwardSteps(steps)
 		_ = fast.LoadSensors(in2)
 		_, err = fast.ForwardSteps(steps)
@@ -296,6 +315,10 @@ func c12Sequence(c *Ctx, s *netSpec, build func() *network.Network, steps int, d
 		}
 		flush := r.Intn(2) == 0
 		mode := r.Intn(3)
+		if steps >= 2 && r.Intn(4) == 0 {
+			_, _ = std.MaxActivationDepthWithCap(1 + r.Intn(steps-1))
+			c.Count("solver.sequence_capped_depth_query_before", 1)
+		}
 		if s.NBias > 0 && r.Intn(4) == 0 {
 			// the caller may load the bias sensors explicitly (full vector); a later load of the plain input vector means bias = 1 again
 			full := append(append([]float64{}, randInputs(r, s.NIn, 2)...), make([]float64, s.NBias)...)
